@@ -34,6 +34,7 @@ type FuncResult struct {
 	HintsFailed int
 	HintFailIDs []string
 	Abstracted  []string // library functions called without a contract (results arbitrary)
+	BareLoops   []string // loops without an invariant in the contract
 }
 
 // global returns the value of a package-level variable.
@@ -585,6 +586,7 @@ func (e *Engine) verifyFuncPass(key string, pass int, proved map[string]bool) *F
 	res.Obligations = c.obls
 	res.Unsupported = c.unsupp
 	res.Abstracted = c.abstracted
+	res.BareLoops = c.bareLoops
 	res.Decls = c.decls
 	return res
 }
